@@ -59,7 +59,16 @@ func init() {
 		var out []*vexplore.Scenario
 		for _, t := range topos {
 			t := t
-			out = append(out, &vexplore.Scenario{Name: t.name, Mode: "sched", Bound: b, Reset: kit.ResetGlobals, Body: func() { run(t) }})
+			out = append(out, &vexplore.Scenario{Name: t.name, Mode: "sched", Bound: b, Reset: kit.ResetGlobals, Body: func() { run(t, false) }})
+		}
+		// the same with every member already blocked in Recv when the messages start to flow, so
+		// that delivery to the application overlaps with forwarding to the other peers
+		for _, t := range topos {
+			t := t
+			switch t.name {
+			case "star-hub-2-leaves", "star-tree-4", "bus-raw-forwarder", "bus-mesh-3":
+				out = append(out, &vexplore.Scenario{Name: t.name + "+receivers-waiting", Mode: "sched", Bound: b, Reset: kit.ResetGlobals, Body: func() { run(t, true) }})
+			}
 		}
 		out = append(out, &vexplore.Scenario{Name: "xstar-raw-forward", Mode: "sched", Bound: b, Reset: kit.ResetGlobals, Body: xstarRaw})
 		return out
@@ -72,7 +81,7 @@ func must(err error, what string) {
 	}
 }
 
-func run(t *topo) {
+func run(t *topo, recvFirst bool) {
 	n := len(t.ctors)
 	socks := make([]mangos.Socket, n)
 	attached := make([]int, n)
@@ -109,6 +118,34 @@ func run(t *topo) {
 	for _, d := range t.device {
 		must(mangos.Device(socks[d], socks[d]), "Device")
 	}
+	// optionally every cooked member is already receiving
+	early := make([][]string, n)
+	var rcalls []*kit.Call
+	if recvFirst {
+		for r := 0; r < n; r++ {
+			if t.raw[r] {
+				continue
+			}
+			want := 0
+			for _, s := range t.senders {
+				if t.expect(s, r) {
+					want++
+				}
+			}
+			r := r
+			rcalls = append(rcalls, kit.Start(fmt.Sprintf("RecvLoop:%d", r), func() (interface{}, error) {
+				for i := 0; i < want; i++ {
+					b, err := socks[r].Recv()
+					if err != nil {
+						return nil, err
+					}
+					early[r] = append(early[r], string(b))
+				}
+				return nil, nil
+			}))
+		}
+		kit.Quiesce()
+	}
 	// all senders at once
 	var calls []*kit.Call
 	for _, s := range t.senders {
@@ -123,6 +160,11 @@ func run(t *topo) {
 			kit.Failf("send-stuck", "%s done=%v %s", c.Name, c.Done(), kit.ErrName(c.Err))
 		}
 	}
+	for _, c := range rcalls {
+		if !c.Done() || c.Err != nil {
+			kit.Failf("missing", "%s: %s done=%v %s: a member that was already receiving did not get everything it is owed (got %v)", t.name, c.Name, c.Done(), kit.ErrName(c.Err), early)
+		}
+	}
 	// every member drains
 	obs := ""
 	for r := 0; r < n; r++ {
@@ -135,7 +177,7 @@ func run(t *topo) {
 				want = append(want, fmt.Sprintf("from-%d", s))
 			}
 		}
-		var got []string
+		got := append([]string{}, early[r]...)
 		for {
 			c := kit.Start(fmt.Sprintf("Recv:%d", r), func() (interface{}, error) { b, err := socks[r].Recv(); return string(b), err })
 			kit.Quiesce()
